@@ -470,6 +470,36 @@ func runC10(c *Ctx) {
 	// block scans: random spend DAGs in topological, reverse and random order
 	c.Batch = 10
 	scanCases(c)
+	// chains and DAGs in which every transaction is relevant and spends several outputs of its parents, children
+	// first: the re-check of dependants must not revisit matched transactions exponentially often (60 s deadline)
+	for _, n := range []int{6, 26, c.Pick(40, 150)} {
+		for _, fib := range []bool{false, true} {
+			var desc []interface{}
+			for i := 0; i < n; i++ {
+				outs := []interface{}{map[string]interface{}{"kind": "pk", "item": 0, "item2": 1}, map[string]interface{}{"kind": "pk", "item": 0, "item2": 1}}
+				var ins []interface{}
+				for k := 0; k < 2; k++ {
+					par, out := i-1, k
+					if fib {
+						par, out = i-1-k, 0
+					}
+					if par < 0 {
+						par = -1
+					}
+					ins = append(ins, map[string]interface{}{"parent": par, "out": out, "sig": -1, "ext": k})
+				}
+				desc = append(desc, map[string]interface{}{"outs": outs, "ins": ins})
+			}
+			rev := make([]int, n)
+			for i := range rev {
+				rev[i] = n - 1 - i
+			}
+			for fl := 0; fl < 3; fl++ {
+				c.Call(Event{"op": "ScanBlock", "desc": desc, "order": rev, "fitems": []interface{}{map[string]interface{}{"t": "item", "k": 0, "kind": "pk"}},
+					"salt": 4242 + n, "flags": fl, "nbytes": 4096, "nhash": 3, "tweak": w32(uint32(n)), "src": "chain"})
+			}
+		}
+	}
 	for k := 0; k < c.Pick(260, 2500); k++ {
 		n := 2 + r.Intn(5)
 		if k%25 == 0 {
